@@ -13,6 +13,7 @@ import (
 	registrytypes "github.com/tellor-io/layer/x/registry/types"
 
 	sdkmath "cosmossdk.io/math"
+	sdk "github.com/cosmos/cosmos-sdk/types"
 
 	"github.com/ethereum/go-ethereum/accounts/abi"
 	stakingtypes "github.com/cosmos/cosmos-sdk/x/staking/types"
@@ -570,15 +571,65 @@ func (w *World) DisputeStory(o HistOpts) {
 	}
 	r := reps[w.pick(len(reps))]
 	sec := time.Second
-	if !w.block(o, 2*sec, func() { w.Tip(w.user(), w.currentCycleQuery(), int64(1_000_000+w.pick(5_000_000))) }, func() { w.Submit(r, w.currentCycleQuery(), hex32(uint64(1000+w.pick(5)))) }) {
+	// give the reporter more selectors (accounts that never selected anyone), so that several of them can
+	// vote before it does
+	if w.pick(2) == 0 {
+		var joins []func()
+		for _, u := range w.Users {
+			u := u
+			if has, _ := w.App.ReporterKeeper.Selectors.Has(w.Ctx, u.Addr.Bytes()); !has && u.Name != r.Name {
+				joins = append(joins, func() { w.Delegate(u, w.val(), int64(1_000_000*(2+w.pick(50)))) }, func() { w.SelectReporter(u, r) })
+			}
+		}
+		if len(joins) > 0 {
+			w.block(o, 2*sec, joins...)
+		}
+	}
+	// the reporter reports two queries in the same block (two aggregates determined by reports of one height)
+	nrep0 := len(w.Reports)
+	second := []string{"qada", "qsol", "qbtc", "qeth"}[w.pick(4)]
+	if !w.block(o, 2*sec, func() { w.Tip(w.user(), w.currentCycleQuery(), int64(1_000_000+w.pick(5_000_000))) },
+		func() { w.Tip(w.user(), second, int64(1_000_000+w.pick(5_000_000))) },
+		func() { w.Submit(r, w.currentCycleQuery(), hex32(uint64(1000+w.pick(5)))) },
+		func() { w.Submit(r, second, hex32(uint64(1000+w.pick(5)))) }) {
 		return
 	}
-	if len(w.Reports) == 0 {
+	if len(w.Reports) == nrep0 {
 		return
 	}
-	rep := w.Reports[len(w.Reports)-1]
+	rep := w.Reports[nrep0+w.pick(len(w.Reports)-nrep0)]
 	w.block(o, 3*sec)
-	w.block(o, 3*sec)
+	// between report and dispute a backer takes most of its stake out (the slash must then reach into the
+	// unbonding entry)
+	if w.pick(3) == 0 {
+		backers := []*Actor{r}
+		for _, a := range w.Actors {
+			if s, err := w.App.ReporterKeeper.Selectors.Get(w.Ctx, a.Addr.Bytes()); err == nil && string(s.Reporter) == string(r.Addr.Bytes()) && a.Name != r.Name {
+				backers = append(backers, a)
+			}
+		}
+		b := backers[w.pick(len(backers))]
+		dels, _ := w.App.StakingKeeper.GetDelegatorDelegations(w.Ctx, b.Addr, 10)
+		var outs []func()
+		for _, d := range dels {
+			va, _ := sdk.ValAddressFromBech32(d.ValidatorAddress)
+			v, err := w.App.StakingKeeper.GetValidator(w.Ctx, va)
+			if err != nil {
+				continue
+			}
+			tok := v.TokensFromShares(d.Shares).TruncateInt().Int64()
+			for _, wv := range w.Vals {
+				if wv.ValAddr.String() == d.ValidatorAddress && tok > 1000 {
+					wv := wv
+					take := tok - tok/int64(50+w.pick(400))
+					outs = append(outs, func() { w.Undelegate(b, wv, take) })
+				}
+			}
+		}
+		w.block(o, 3*sec, outs...)
+	} else {
+		w.block(o, 3*sec)
+	}
 	cat := disputetypes.DisputeCategory(1 + w.pick(3))
 	full := sdkmath.NewIntFromUint64(rep.Power).MulRaw(1_000_000)
 	switch cat {
@@ -587,11 +638,11 @@ func (w *World) DisputeStory(o HistOpts) {
 	case disputetypes.Minor:
 		full = full.QuoRaw(20)
 	}
-	payers := []*Actor{w.anyActor(), w.anyActor()}
+	payers := []*Actor{w.anyActor(), w.anyActor(), w.anyActor(), w.user()}
 	first := full.Int64()
-	partial := w.pick(3) == 0
+	partial := w.pick(2) == 0
 	if partial {
-		first = full.Int64()/2 + 1
+		first = full.Int64()/2 + 1 + int64(w.pick(1000))
 	}
 	if first < 10_000 {
 		first = 10_000
@@ -611,7 +662,10 @@ func (w *World) DisputeStory(o HistOpts) {
 			w.block(o, 2*sec, func() { w.WithdrawFeeRefund(payers[0], payers[0], id) }, func() { w.WithdrawFeeRefund(payers[0], payers[0], id) })
 			return
 		default:
-			w.block(o, 3*sec, func() { w.AddFee(payers[1], id, full.Int64()/4+1, w.pick(4) == 0) })
+			// several payers with amounts that do not divide evenly (sub-unit dust on every refund)
+			w.block(o, 3*sec, func() { w.AddFee(payers[1], id, full.Int64()/4+1+int64(w.pick(1000)), w.pick(4) == 0) },
+				func() { w.AddFee(payers[2], id, int64(7+w.pick(5000)), false) },
+				func() { w.AddFee(payers[3], id, int64(3+w.pick(50)), false) })
 			w.block(o, 3*sec, func() { w.AddFee(payers[w.pick(2)], id, full.Int64(), false) })
 		}
 	}
@@ -625,7 +679,14 @@ func (w *World) DisputeStory(o HistOpts) {
 			ordered = append(ordered, a)
 		}
 	}
-	if len(ordered) > 1 {
+	if len(ordered) > 1 && w.pick(2) == 0 {
+		// several selectors before their reporter, the rest after
+		k := 2 + w.pick(len(ordered)-1)
+		seq := append([]*Actor{}, ordered[:k]...)
+		seq = append(seq, r)
+		seq = append(seq, ordered[k:]...)
+		ordered = append(seq, w.Team)
+	} else if len(ordered) > 1 {
 		ordered = []*Actor{ordered[0], r, ordered[1], w.Team}
 	} else if len(ordered) == 1 {
 		ordered = []*Actor{ordered[0], r, w.Team}
@@ -638,6 +699,9 @@ func (w *World) DisputeStory(o HistOpts) {
 		}
 		var votes []func()
 		useOrdered := len(ordered) > 0 && w.pick(2) == 0
+		if useOrdered && round == rounds && nv < len(ordered) {
+			nv = len(ordered)
+		}
 		for i := 0; i < nv; i++ {
 			v := voters[w.pick(len(voters))]
 			if useOrdered && i < len(ordered) {
@@ -649,7 +713,7 @@ func (w *World) DisputeStory(o HistOpts) {
 		w.block(o, 5*sec, votes...)
 		w.block(o, 48*time.Hour+time.Duration(w.pick(3))*sec) // vote period ends: tally in BeginBlock
 		if round < rounds {
-			p := payers[w.pick(2)]
+			p := payers[w.pick(len(payers))]
 			w.block(o, time.Hour, func() { w.ProposeDispute(p, rep, cat, full.Int64()*2, w.pick(5) == 0, "story-round") })
 			if w.lastDisputeId() == id {
 				break
@@ -729,6 +793,22 @@ func (w *World) BridgeStory(o HistOpts) {
 		if i < len(ops) {
 			a := ops[i]
 			reps = append(reps, func() { w.Submit(a, dep, val) })
+		}
+	}
+	// optionally a second deposit tipped and reported in the same block by an overlapping set of operators: both
+	// rounds close in one block and the time-based reward of that block pays two aggregates that share reporters
+	if w.pick(2) == 0 {
+		id2 := uint64(1 + w.pick(8))
+		if id2 != id {
+			dep2 := fmt.Sprintf("dep%d", id2)
+			val2 := DepositValue(w.user().Addr.String(), new(big.Int).Mul(big.NewInt(int64(1+w.pick(5000))), big.NewInt(1e12)), big.NewInt(0))
+			reps = append(reps, func() { w.Tip(w.user(), dep2, int64(1_000_000+w.pick(2_000_000))) })
+			for _, i := range subsets[w.pick(len(subsets))] {
+				if i < len(ops) {
+					a := ops[i]
+					reps = append(reps, func() { w.Submit(a, dep2, val2) })
+				}
+			}
 		}
 	}
 	w.block(o, 2*sec, reps...)
